@@ -59,6 +59,17 @@ def info_valid(ctx, rule="INFO-VALID"):
         ("unlimited width when max_len == 0", has([("Eq", 0), ("Ne", 0)], "*p1.coltype@Str.0", const_is, **{"discr(*p2)": ("==", 2)})),
         ("length counted in characters", any(o in ("Le", "Gt") and "Iterator>::count(core::str::<impl str>::chars(" in x and y == "*p1.coltype@Str.0" for (o, x, y, fa) in bins)),
     ]
+    # equivalent spelling of the range test: (min..=max).contains(&number)
+    from ..lib import call_of
+    rc = []
+    for c in symcalls(prog, f, S):
+        if c[1].endswith("RangeInclusive::<Idx>::contains") and "p2@Int.0" in c[2][1]:
+            cn, ca = call_of(S, c[2][0])
+            if cn and cn.endswith("RangeInclusive::<Idx>::new") and ca == ["*p1.value_range@Some.0.0", "*p1.value_range@Some.0.1"]:
+                rc.append(c)
+    if rc:
+        checks[0] = ("range minimum", True)
+        checks[1] = ("range maximum", True)
     for what, ok in checks:
         ctx.check(ok, rule, what, "", "is_valid_value lost or changed the check `%s`" % what, f.loc(), fn=f.name, key="%s|%s" % (rule, what))
     # range failures return false
